@@ -17,10 +17,13 @@ RULE = (
     "dispose. Non-trivial: the subject terminated by an error or by a completion with a value while >=1 observer was "
     "subscribed AND a subscriber arrived after termination. "
     "A third check (falsy_error, run last) repeats short histories in which on_error is given a valid exception object whose "
-    "truth value is False (it defines __len__ == 0). det (Engine DET, vlib/det.py: line-level yield points, cooperative locks, subject created after patching): thread A subject.subscribe(recorder) || thread B a fixed list of 1-3 emitting calls, 0/1 observer subscribed beforehand, either thread scheduled first; every schedule with <=1 (quick) / <=2 (thorough) preemptions is run; oracle = linearizability against the same sequential model: the racing subscriber's list must equal the model's list for SOME position of its subscribe in the emitter's call sequence (so its first notification is the value current at registration and nothing earlier follows), earlier subscribers see the sequential outcome, no deadlock/exception; non-trivial = calls overlapped and >=2 distinct outcomes observed. Distinct = distinct case JSON."
+    "truth value is False (it defines __len__ == 0). det (Engine DET, vlib/det.py: line-level yield points, cooperative locks, subject created after patching): thread A subject.subscribe(recorder) || thread B a fixed list of 1-3 emitting calls, 0/1 observer subscribed beforehand, either thread scheduled first; every schedule with <=1 (quick) / <=2 (thorough) preemptions is run; oracle = linearizability against the same sequential model: the racing subscriber's list must equal the model's list for SOME position of its subscribe in the emitter's call sequence (so its first notification is the value current at registration and nothing earlier follows), earlier subscribers see the sequential outcome, no deadlock/exception; non-trivial = calls overlapped and >=2 distinct outcomes observed. raising: histories whose observers are plain except one whose k-th handler raises; checked afterwards: observers served before "
+    "it, every later notification to every subscribed observer, terminal / current value for later subscribers; left open: "
+    "re-raise to the caller, the rest of that one delivery, the raiser itself; non-trivial there = a notification was delivered in a "
+    "later command than the raise. Distinct = distinct case JSON."
 )
 ASSUMPTIONS = [
-    "as C20 (public subscribe, subscription-order delivery, unsubscribe inside subscribe() effective at its return, non-raising callbacks)",
+    "as C20 (public subscribe, subscription-order delivery, unsubscribe inside subscribe() effective at its return, non-raising callbacks outside the raising check)",
     "an observer that unsubscribes inside its on_next(last value) callback does not receive the completion (C03)",
 ]
 
@@ -49,11 +52,14 @@ def _enum(tier):
 
 _DET_PROGRAMS = [({}, [['next', 'none'], ['completed']]), ({}, [['next', 'i0'], ['next', 'i1'], ['completed']]), ({}, [['completed']]), ({}, [['next', 'i1']])]
 
+_DET_PROGRAMS_THOROUGH = [({}, [["next", "i0"], ["next", "none"], ["next", "f0"], ["completed"]]), ({}, [["next", "s"], ["next", "i1"]])]
+
 
 def _det_cases(tier):
     K = 1 if tier == "quick" else 2
-    for cfg, emits in _DET_PROGRAMS:
-        for pre in (0, 1):
+    programs = _DET_PROGRAMS if tier == "quick" else _DET_PROGRAMS + _DET_PROGRAMS_THOROUGH
+    for cfg, emits in programs:
+        for pre in ((0, 1) if tier == "quick" else (0, 1, 2)):
             for first in ("sub", "emit"):
                 yield {"kind": "async", "cfg": cfg, "emits": emits, "pre": pre, "first": first, "K": K}
 
@@ -63,6 +69,7 @@ def checks(tier):
     return [
         Check("enum", _run, cases=_enum, shards={"quick": 8, "thorough": 16}, exhaustive=True),
         Check("gen", _run, strategy=histories("async", n), examples={"quick": 3200, "thorough": 16 * 20000}, shards={"quick": 8, "thorough": 16}),
+        Check("raising", _run, strategy=histories("async", n, raising=True), examples={"quick": 800, "thorough": 16 * 6000}, shards={"quick": 8, "thorough": 16}),
         Check("det", det_race, cases=_det_cases, shards={"quick": 8, "thorough": 16}, exhaustive=True),
         # last on purpose: a failure here must not cut the searches above short
         Check("falsy_error", _run, strategy=histories("async", 12, falsy_error=True), examples={"quick": 400, "thorough": 16 * 1000}, shards={"quick": 1, "thorough": 16}),
